@@ -47,6 +47,16 @@ theorem C18_finder_types :
     (Gen.Dedupe.surfaceClassTable.filter fun r => isFinder (SClass.ofName r.2.1)).map (·.1)
       = ["PX", "PY", "PZ", "C/X", "C/Y", "C/Z", "CX", "CY", "CZ"] := by decide
 
+/-- the base class's `Surface.find_duplicate_surfaces` — run by every built class that does not override it (the MRO
+    of the code: `Surface` itself and `GeneralPlane`, i.e. SO, S, P, K/Z, X, GQ, …) — is the `return []` the model's
+    `findDuplicateSurfaces` has for the classes `.surface` / `.generalPlane`; and a built class runs the base class's
+    finder exactly when it is not one of the three modelled finder classes (which run their own).  A source edit of the base finder re-opens this. -/
+theorem C18_base_finder_modelled :
+    Gen.Dedupe.baseFinderBody = "return []"
+      ∧ ∀ r ∈ Gen.Dedupe.finderProviders,
+          (r.2 = r.1 ∨ r.2 = "Surface") ∧ (isFinder (SClass.ofName r.1) = false ↔ r.2 = "Surface") := by
+  decide
+
 /-! ## the decision logic: finders = Spec.dup -/
 
 /-- `find_duplicate_surfaces` returns exactly the other surfaces of the list that are C18-duplicates of `self`. -/
@@ -112,6 +122,68 @@ theorem C18_only (p : Problem) (tol : Rat) (hp : ProblemWF p) :
   obtain ⟨h1, sd, hsd, sv, hsv, e1, e2, _, h4⟩ := I.rng d t ht
   refine ⟨sd, hsd, sv, hsv, e1, by rw [e2]; exact ht, by rw [e2]; exact h1, ?_⟩
   exact ((mem_find_iff sv sd _ tol (hp.consts sv hsv) (hp.consts sd hsd)).1 h4).2.2.2
+
+/-- lists that are pairwise within the tolerance have the same length (`Spec.allWithin` never stops at the shorter one) -/
+theorem allWithin_length (tol : Rat) : ∀ (xs ys : List Rat), allWithin tol xs ys = true → xs.length = ys.length
+  | [], [], _ => rfl
+  | [], _ :: _, h => by simp [allWithin] at h
+  | _ :: _, [], h => by simp [allWithin] at h
+  | x :: xs, y :: ys, h => by
+    simp only [allWithin, Bool.and_eq_true] at h
+    simp only [List.length_cons, allWithin_length tol xs ys h.2]
+
+theorem dup_length {tol : Rat} {a b : Surface} (h : dup tol a b = true) : a.consts.length = b.consts.length := by
+  unfold dup at h
+  simp only [Bool.and_eq_true] at h
+  exact allWithin_length tol _ _ h.2
+
+/-- Surfaces written with a different number of constants are never merged (two-sheet cone `K/Z 0 0 10 0.25` and
+    one-sheet cone `K/Z 0 0 10 0.25 -1`, `Z 1 2` and `Z 1 2 3 4`, a 4-entry and a 9-entry `P` are different surfaces
+    although the shorter list is a prefix of the longer): a removed surface and the survivor it is mapped to have the
+    same mnemonic and equally many constants. -/
+theorem C18_same_arity (p : Problem) (tol : Rat) (hp : ProblemWF p) :
+    ∀ sd ∈ p.surfaces, ∀ sv ∈ p.surfaces, (mapOf p tol).lookup sd.number = some sv.number →
+      sv.stype = sd.stype ∧ sv.consts.length = sd.consts.length := by
+  intro sd hsd sv hsv hl
+  have inj : ∀ a ∈ p.surfaces, ∀ b ∈ p.surfaces, a.number = b.number → a = b :=
+    fun a ha b hb h => nodup_map_inj (·.number) hp.nodup ha hb h
+  obtain ⟨_, sd', hsd', sv', hsv', e1, e2, _, h4⟩ := (loop_inv hp tol).rng sd.number sv.number hl
+  have := inj sd' hsd' sd hsd e1
+  subst this
+  have := inj sv' hsv' sv hsv e2
+  subst this
+  have hd := ((mem_find_iff sv' sd' _ tol (hp.consts sv' hsv') (hp.consts sd' hsd')).1 h4).2.2.2
+  exact ⟨dup_stype hd, dup_length hd⟩
+
+/-- A surface whose mnemonic is not built as one of the finder classes (it runs the base class's finder: SO, S, P,
+    K/Z, X, GQ, …): its `find_duplicate_surfaces` finds nothing, it is never removed, and nothing is merged into it. -/
+theorem C18_generic_kept (p : Problem) (tol : Rat) (hp : ProblemWF p) :
+    ∀ s ∈ p.surfaces, isFinder (classOf s.stype) = false →
+      (∀ S, findDuplicateSurfaces s S tol = []) ∧ s.number ∉ removedBy p tol
+        ∧ ∀ d, (mapOf p tol).lookup d ≠ some s.number := by
+  intro s hs hf
+  have inj : ∀ a ∈ p.surfaces, ∀ b ∈ p.surfaces, a.number = b.number → a = b :=
+    fun a ha b hb h => nodup_map_inj (·.number) hp.nodup ha hb h
+  have hnil : ∀ S, findDuplicateSurfaces s S tol = [] := by
+    intro S
+    unfold findDuplicateSurfaces
+    cases hc : classOf s.stype <;> simp_all [isFinder]
+  have I := loop_inv hp tol
+  refine ⟨hnil, ?_, ?_⟩
+  · intro hd
+    obtain ⟨t, ht⟩ := Option.isSome_iff_exists.1 ((I.dom s.number).1 hd)
+    obtain ⟨_, sd, hsd, sv, hsv, e1, _, _, h4⟩ := I.rng s.number t ht
+    have := inj sd hsd s hs e1
+    subst this
+    have h1 := (mem_find_iff sv sd _ tol (hp.consts sv hsv) (hp.consts sd hsd)).1 h4
+    rw [dup_stype h1.2.2.2, hf] at h1
+    exact absurd h1.2.2.1 (by decide)
+  · intro d hl
+    obtain ⟨_, sd, _, sv, hsv, _, e2, _, h4⟩ := I.rng d s.number hl
+    have := inj sv hsv s hs e2
+    subst this
+    rw [hnil] at h4
+    cases h4
 
 /-- the map's domain is exactly the removed set: a surface is sent somewhere iff it is removed -/
 theorem C18_map_domain (p : Problem) (tol : Rat) (hp : ProblemWF p) (d : Nat) :
@@ -410,6 +482,17 @@ example : ∃ ρ : Nat → Bool, (∀ d t, (mapOf demo (1/10000)).lookup d = som
   by_cases hd : d = 2
   · subst hd; simp at h; subst h; rfl
   · simp [hd] at h
+/-- look-alikes with a different number of constants (`1 K/Z 0 0 10 1/4`, `2 K/Z 0 0 10 1/4 -1`, `3 Z 1 2`,
+    `4 Z 1 2 3 4`, `5 P 1 0 0 5`, `6 P` by three points) satisfy the hypotheses; no tolerance merges them -/
+def lookalikes : Problem :=
+  { surfaces := [⟨1, "K/Z", [0, 0, 10, 1/4], none, none, false, false⟩, ⟨2, "K/Z", [0, 0, 10, 1/4, -1], none, none, false, false⟩,
+                 ⟨3, "Z", [1, 2], none, none, false, false⟩, ⟨4, "Z", [1, 2, 3, 4], none, none, false, false⟩,
+                 ⟨5, "P", [1, 0, 0, 5], none, none, false, false⟩, ⟨6, "P", [1, 0, 0, 5, 5, 1, 0, 5, 0], none, none, false, false⟩],
+    cells := [⟨1, .inter (.leaf 2 false) (.union (.leaf 4 true) (.leaf 6 false)), [2, 4, 6]⟩] }
+
+example : ProblemWF lookalikes := ⟨by decide, by decide, by decide⟩
+example : ∀ s ∈ lookalikes.surfaces, isFinder (classOf s.stype) = false := by decide
+example : removedBy lookalikes 100 = [] := by decide +kernel
 /-- with a larger tolerance the chain 1 ~ 2, and 5 stays (0.6 away); with tolerance 1 also 5 goes -/
 example : removedBy demo 1 = [2, 5] := by decide +kernel
 
